@@ -244,34 +244,34 @@ CLAIMED.update({
                   "nan-variants through the public API on integer data (free-monoid object arrays make multiplicity and order visible), every axis selection, keepdims, "
                   "split_every incl. per-axis dicts, all chunkings of small arrays incl. zero-size chunks, deep trees (<= 9-33 blocks), and float data containing NaN for the "
                   "nan-variants. Empty chunks in arg reductions / sequential scans / n-d min-max are listed known findings.",
-             note=_API_NOTE + "Outside: float tolerance analysis, inf, median/quantile, wholly empty arrays, split_every < 2.", design_ref="DESIGN.md sec. 3 C22"),
+             note=_API_NOTE + "Outside: float tolerance analysis, inf, median/quantile, wholly empty arrays, split_every < 2.", design_ref="DESIGN.md sec. 9a"),
  "C27": dict(text="validate_axis, _partition, aligned_coarsen_chunks and chunk.coarsen with unbounded symbolic sizes (sums, multiples of the factor, trimmed extents); unique "
                   "(index/inverse/counts, NaN), bincount, histogram/histogram2d/histogramdd with integer edges, digitize, searchsorted, isin, nonzero/argwhere/flatnonzero/"
                   "count_nonzero, unravel_index/ravel_multi_index, coarsen, compress/extract through the public API against NumPy for every chunking (<= 3-4 chunks per axis incl. "
                   "zero-size and size-1 chunks) of small integer arrays: values, declared and computed shape, dtype, and errors where NumPy raises.",
              note=_API_NOTE + "Outside: float binning numerics, density=, dask-array bins, unknown-chunk follow-ups, compress with a condition longer than the axis.",
-             design_ref="DESIGN.md sec. 3 C27"),
+             design_ref="DESIGN.md sec. 9a"),
  "C35": dict(text="map_blocks / da.blockwise / core blockwise run on real Arrays with unbounded symbolic chunk sizes and an empty graph; the materialised layer is executed with stand-in "
                   "blocks: one task per output block, arguments are the aligned blocks (block 0 of single-block axes, contracted indices concatenated or nested in order), block_id and "
                   "every block_info field (shape, num-chunks, chunk-location, array-location = cumulative offsets, chunk-shape, dtype) for drop_axis / new_axis / chunks= / several inputs, "
                   "declared chunks under new_axes / adjust_chunks; the same through the public API with recording, position-dependent functions; apply_gufunc against "
                   "numpy.vectorize(signature=) for ten signatures with axes / axis / keepdims / allow_rechunk.",
              note=_API_NOTE + "concatenate_axes is replaced by a recorder on the symbolic side. keepdims=True with axes= is a listed known finding. Outside: > 3 operands / dims, dtype "
-                  "inference, size-0 core dims.", design_ref="DESIGN.md sec. 3 C35"),
+                  "inference, size-0 core dims.", design_ref="DESIGN.md sec. 9a"),
  "C40": dict(text="The real TaskShuffle._layer graph (all stages, max_branch 2..32, npartitions in != out, partition selections) interpreted task by task with the real shuffle_group / "
                   "shuffle_group_2 / shuffle_group_get on a one-row stand-in whose routing value is a symbolic hash in [0, 2**64): the row arrives exactly once, in partition hash % m; "
                   "partitioning_index with symbolic npartitions; set_partitions_pre (range, monotone, NA placement). Public API: shuffle (equal keys meet, rows preserved, partition == "
                   "partitioning_index), sort_values / set_index equal to pandas partition by partition, drop_duplicates / unique / nunique over split_out, split_every and shuffle "
                   "method, on every split of <= 3-4 rows into <= 3-4 partitions and every key pattern.",
              note=_API_NOTE + "Stub pyarrow (dask.dataframe import). Three sort_values regions are listed known findings; which representative drop_duplicates keeps under "
-                  "shuffle_method='disk' is execution-order dependent and not asserted. Outside: p2p, string keys with nulls.", design_ref="DESIGN.md sec. 3 C40"),
+                  "shuffle_method='disk' is execution-order dependent and not asserted. Outside: p2p, string keys with nulls.", design_ref="DESIGN.md sec. 9a"),
  "C46": dict(text="CreateOverlappingPartitions._layer / _combined_parts / overlap_chunk on row-interval stand-ins with unbounded symbolic partition lengths, before and after: the function "
                   "sees exactly rows [start-before, end+after) and the trimmed result is [start, end); NotImplementedError iff a lending neighbour is too short; rolling / shift / diff / "
                   "ffill / bfill before/after arithmetic with symbolic window, periods, limit composed with that kernel; the cumulative finalize graph on symbolic values. Public API "
                   "(rolling incl. time windows, cumsum/cumprod/cummin/cummax, shift, diff, ffill/bfill with limits, map_overlap) against pandas on the unpartitioned frame for every "
                   "partitioning of <= 4-6 rows into <= 3-4 partitions incl. empty ones.",
              note=_API_NOTE + "Stub pyarrow. Several cumulative regions (holes in non-last partitions, one-column frames) are the listed known finding C46-cumulative-holes. Outside: "
-                  "pct_change (absent), time-based center=True, groupby().rolling().", design_ref="DESIGN.md sec. 3 C46"),
+                  "pct_change (absent), time-based center=True, groupby().rolling().", design_ref="DESIGN.md sec. 9a"),
 })
 for _k in ("C22", "C27", "C35", "C40", "C46"):
     CLAIMED[_k]["technique"] = ("bounded symbolic execution of the real Python kernels with z3 (symx) plus solver-enumerated, exhausted input spaces through the public API against "
